@@ -6,6 +6,9 @@ import Penguin.Model.Mux
 import Penguin.Lemmas.Link
 import Penguin.Lemmas.LinkGlue
 import Penguin.Lemmas.PairCor
+import Penguin.Lemmas.MuxEof
+import Penguin.Lemmas.MuxEofRead
+import Penguin.Lemmas.MuxEofConn
 
 namespace Penguin.C05
 open Penguin Penguin.Link
@@ -121,5 +124,288 @@ example : (Pair.run (Pair.init pcfg pcfg [7, 8] [9, 10]) pacts).gb.eof 0 = true 
 /-! Non-vacuity -/
 example : (step (run (init 2 1) [.write [1], .write [], .deliver]) (.read 4)).2 = .data [1] := by decide
 example : (step (run (init 2 1) [.write [1], .write [], .deliver, .read 4]) (.read 4)).2 = .pending := by decide
+
+
+/-! ### One whole endpoint, every history, ANY peer (`Lemmas/MuxEof`, `Lemmas/MuxEofRead`)
+
+`runOps { opts := o } ops` is the endpoint after an arbitrary history `ops` of application calls,
+deliveries of arbitrary messages (the peer is unconstrained) and transport faults.
+`endsOf { opts := o } ops` is the ghost computed from that history: the list of all events "the
+receiving half of stream object `i` was closed for cause `c`", recorded at exactly five places of the
+model — a `Finish` / a `Reset` processed while object `i` holds the frame's slot, a `Push` that finds
+the window of the object holding its slot full, a dropped-handle notification for the held slot, and
+the drain of the flow table that ends the wind-down of the task (`Mux.EndCause`).  `endCause D i` is
+the first cause recorded for object `i`. -/
+
+section Endpoint
+open Penguin.Mux
+
+/-- (1) A read through handle `h` returns end-of-stream only if the handle's stream object has lost
+    its channel sender, and that happens only for a recorded cause: the peer's `Finish` or `Reset` for
+    the flow id while this object held the slot, the peer overrunning this object's window, the
+    application dropping the stream, or the end of the connection (the task wound down).  For every
+    history, with any peer. -/
+theorem eof_only_after_end_of_that_stream (o : Opts) (ops : List Mux.Op) (h n : Nat)
+    (he : (appRead (runOps { opts := o } ops) h n).2 = .eof) :
+    ∃ i ob c, (runOps { opts := o } ops).handles[h]? = some i ∧
+      (runOps { opts := o } ops).objs[i]? = some ob ∧ ob.senderAlive = false ∧
+      endCause (endsOf { opts := o } ops) i = some c := by
+  obtain ⟨i, ob, hh, ho⟩ := appRead_eof_handle he
+  rw [appRead_res _ h i n ob hh ho, readOut_eof] at he
+  have hs := ((readRes_eof_iff ob).mp he).1
+  obtain ⟨c, hc⟩ := reachable_gone_has_cause o ops i ob ho hs
+  exact ⟨i, ob, c, hh, ho, hs, hc⟩
+
+/-- … the recorded causes are real: an event `(i, c)` of the history means that object `i` exists,
+    its sender is gone for good, and — unless the cause is the peer's orderly `Finish` — its write
+    side is shut too. -/
+theorem recorded_end_is_real (o : Opts) (ops : List Mux.Op) (i : Nat) (c : EndCause)
+    (hc : endCause (endsOf { opts := o } ops) i = some c) :
+    ∃ ob, (runOps { opts := o } ops).objs[i]? = some ob ∧ ob.senderAlive = false ∧
+      (c.isFinish = false → ob.finishSent = true) :=
+  reachable_cause_is_real _ ops i c (endCause_mem hc)
+
+/-- … the cause "the connection ended" is recorded only when the task finishes its wind-down (after
+    the transport's Close / end / error, an invalid frame, a keepalive timeout or the drop of the
+    `Multiplexor`): whenever a history records it, the task is finished. -/
+theorem conn_ended_only_when_task_finished (o : Opts) (ops : List Mux.Op) (i : Nat) (r : ExitRes)
+    (hc : (i, EndCause.connEnded r) ∈ endsOf { opts := o } ops) : (runOps { opts := o } ops).dead = true :=
+  (CE.runOps { opts := o } ops).conn i r hc
+
+/-- … a frame closes a receiving half only if it is a `Finish`, a `Reset` or an overrunning `Push`,
+    and then only that of the object which holds the frame's own flow id at that moment — never
+    another flow's. -/
+theorem only_these_frames_end_a_stream (e : EP) (f : Frame) (i : Nat) (c : EndCause)
+    (hm : (i, c) ∈ processFrameEnds e f) :
+    lookup e.flows f.id = some (.established i) ∧
+    ((f = .finish f.id ∧ c = .peerFinish f.id) ∨ (f = .reset f.id ∧ c = .peerReset f.id) ∨
+     (∃ d, f = .push f.id d ∧ overruns e f.id = true ∧ c = .overrun f.id)) := by
+  have key : ∀ (fid : Nat) (c' : EndCause), (i, c) ∈ closeFlowEnds e fid c' →
+      lookup e.flows fid = some (.established i) ∧ c = c' := by
+    intro fid c' h
+    unfold closeFlowEnds at h
+    split at h
+    · rename_i s hl
+      unfold slotEnds at h
+      split at h
+      · split at h
+        · simp only [List.mem_singleton, Prod.mk.injEq] at h
+          obtain ⟨rfl, rfl⟩ := h
+          exact ⟨hl, rfl⟩
+        · cases h
+      · cases h
+    · cases h
+  cases f with
+  | finish fid => obtain ⟨h1, h2⟩ := key fid _ hm; exact ⟨h1, Or.inl ⟨rfl, h2⟩⟩
+  | reset fid => obtain ⟨h1, h2⟩ := key fid _ hm; exact ⟨h1, Or.inr (Or.inl ⟨rfl, h2⟩)⟩
+  | push fid d =>
+    simp only [processFrameEnds] at hm
+    split at hm
+    · rename_i hov
+      obtain ⟨h1, h2⟩ := key fid _ hm
+      exact ⟨h1, Or.inr (Or.inr ⟨d, rfl, hov, h2⟩)⟩
+    · cases hm
+  | connect fid rwnd port host => cases hm
+  | acknowledge fid k => cases hm
+  | bind fid bt port host => cases hm
+  | datagram fid port host d => cases hm
+
+/-- … and every other frame — `Connect`, `Acknowledge`, `Bind`, `Datagram`, a `Push` (empty or not)
+    that fits the window — records nothing and closes no receiving half: every object whose sender
+    is gone afterwards had it gone before. -/
+theorem other_frames_end_nothing (e : EP) (f : Frame) (ig : Bool)
+    (h1 : ∀ fid, f ≠ .finish fid) (h2 : ∀ fid, f ≠ .reset fid)
+    (h3 : ∀ fid d, f = .push fid d → overruns e fid = false) :
+    processFrameEnds e f = [] ∧
+    ∀ (i : Nat) (ob' : Obj), (processFrame e f ig).1.objs[i]? = some ob' → ob'.senderAlive = false →
+      ∃ ob : Obj, e.objs[i]? = some ob ∧ ob.senderAlive = false := by
+  have hn : processFrameEnds e f = [] := by
+    cases f with
+    | finish fid => exact absurd rfl (h1 fid)
+    | reset fid => exact absurd rfl (h2 fid)
+    | push fid d => simp [processFrameEnds, h3 fid d rfl]
+    | connect fid rwnd port host => rfl
+    | acknowledge fid k => rfl
+    | bind fid bt port host => rfl
+    | datagram fid port host d => rfl
+  refine ⟨hn, ?_⟩
+  intro i ob' ho hs
+  have t := Tr.processFrame e f ig
+  rw [hn] at t
+  rcases t.expl i ob' ho hs with h | ⟨c, hc⟩
+  · exact h
+  · cases hc
+
+/-- (2) A read returns end-of-stream only when no byte is queued for the reader: the handle's buffer
+    is empty and the receive queue holds nothing but empty frames (which the read discards) … -/
+theorem eof_only_after_all_queued_data (o : Opts) (ops : List Mux.Op) (h n : Nat)
+    (he : (appRead (runOps { opts := o } ops) h n).2 = .eof) :
+    ∃ i ob, (runOps { opts := o } ops).handles[h]? = some i ∧
+      (runOps { opts := o } ops).objs[i]? = some ob ∧ ob.buf = [] ∧ ∀ f ∈ ob.rxq, f = [] := by
+  obtain ⟨i, ob, hh, ho⟩ := appRead_eof_handle he
+  rw [appRead_res _ h i n ob hh ho, readOut_eof] at he
+  have hs := (readRes_eof_iff ob).mp he
+  exact ⟨i, ob, hh, ho, hs.2.1, hs.2.2⟩
+
+/-- … and as long as a byte is queued, a read returns bytes, whatever has happened to the stream
+    or the connection in between (peer's `Finish`, `Reset`, the end of the connection). -/
+theorem queued_data_comes_first (o : Opts) (ops : List Mux.Op) (h i n : Nat) (ob : Obj) (hn : 0 < n)
+    (hh : (runOps { opts := o } ops).handles[h]? = some i) (ho : (runOps { opts := o } ops).objs[i]? = some ob)
+    (hq : ob.buf ≠ [] ∨ ∃ f ∈ ob.rxq, f ≠ []) :
+    ∃ b, b ≠ [] ∧ (appRead (runOps { opts := o } ops) h n).2 = .data b := by
+  obtain ⟨b, hb, hr⟩ := readRes_data_of_queued ob hq
+  refine ⟨b.take n, ?_, by rw [appRead_res _ h i n ob hh ho, hr]; rfl⟩
+  cases b with
+  | nil => exact absurd rfl hb
+  | cons x xs => cases n with
+    | zero => omega
+    | succ k => simp
+
+/-- (3) A zero-length write of the peer never ends a stream.  In every reachable state, processing
+    `Push fid []` (unless it overruns the window, as any `Push` frame beyond the window would) records
+    no end event, changes `senderAlive`, `rxOpen` and `finishSent` of no stream object, creates none,
+    and every read afterwards returns exactly what it would have returned before. -/
+theorem empty_push_never_ends_a_stream (o : Opts) (ops : List Mux.Op) (fid : Nat) (ig : Bool)
+    (hno : overruns (runOps { opts := o } ops) fid = false) :
+    let e := runOps { opts := o } ops
+    let e' := (processFrame e (.push fid []) ig).1
+    processFrameEnds e (.push fid []) = [] ∧
+    (∀ j : Nat, (e'.objs[j]?).map (fun x => (x.senderAlive, x.rxOpen, x.finishSent)) =
+                (e.objs[j]?).map (fun x => (x.senderAlive, x.rxOpen, x.finishSent))) ∧
+    (∀ h n, (appRead e' h n).2 = (appRead e h n).2) := by
+  intro e e'
+  have hno' : overruns e fid = false := hno
+  refine ⟨by simp [processFrameEnds, hno'], ?_, fun h n => push_empty_read e fid ig hno h n⟩
+  intro j
+  rcases push_keeps_halves e fid [] ig hno j with hsame | ⟨ob, ho, _, _, _, ho'⟩
+  · show ((processFrame e (.push fid []) ig).1.objs[j]?).map _ = _
+    rw [hsame]
+  · show ((processFrame e (.push fid []) ig).1.objs[j]?).map _ = _
+    rw [ho', ho]; rfl
+
+/-- (4) Shutting down the write side leaves the read side fully usable.  In every reachable state,
+    `appShutdown` leaves the handles and the receive side of every stream object (queue, buffer,
+    sender flag, receiver flag, acknowledgement counters) exactly as they were, and what a read
+    returns and does is a function of that receive side alone: any sequence of reads, on any
+    handles, returns the same results after the shutdown as without it. -/
+theorem local_shutdown_keeps_reading (o : Opts) (ops : List Mux.Op) (h : Nat) :
+    let e := runOps { opts := o } ops
+    RecvEq e (appShutdown e h).1 ∧ ∀ rs, readsRes (appShutdown e h).1 rs = readsRes e rs := by
+  intro e
+  exact ⟨appShutdown_recvEq e h, fun rs => (appShutdown_recvEq e h).readsRes rs⟩
+
+/-- (5) Writes fail after the end.  In every reachable state, for a handle `h` of stream object `i`:
+    once the object's write side is shut (`finishSent`), a write returns BrokenPipe and queues
+    nothing; the write side IS shut whenever the history records an end of the stream other than
+    the peer's orderly `Finish` (peer's `Reset`, overrun, dropped, connection ended), and whenever
+    the task has finished — so a write never blocks (`pending`) once the task is dead. -/
+theorem write_fails_after_end (o : Opts) (ops : List Mux.Op) (h i : Nat) (ob : Obj) (d : Bytes)
+    (hh : (runOps { opts := o } ops).handles[h]? = some i) (ho : (runOps { opts := o } ops).objs[i]? = some ob) :
+    let e := runOps { opts := o } ops
+    (ob.finishSent = true → (appWrite e h d).2 = .brokenPipe ∧ (appWrite e h d).1.outq = e.outq) ∧
+    ((∃ c, (i, c) ∈ endsOf { opts := o } ops ∧ c.isFinish = false) → ob.finishSent = true) ∧
+    (e.dead = true → ob.finishSent = true) ∧
+    (e.dead = true → (appWrite e h d).2 = .brokenPipe) := by
+  intro e
+  have hw : ob.finishSent = true → (appWrite e h d).2 = .brokenPipe ∧ (appWrite e h d).1.outq = e.outq := by
+    intro hf
+    have := (appWrite_glue e h i ob d hh ho).1 hf
+    exact ⟨this.1, this.2.1⟩
+  have hdead : e.dead = true → ob.finishSent = true := fun hd => (reachable_dead_all_closed o ops hd i ob ho).1
+  refine ⟨hw, ?_, hdead, fun hd => (hw (hdead hd)).1⟩
+  rintro ⟨c, hc, hnf⟩
+  obtain ⟨ob', ho', _, hf⟩ := reachable_cause_is_real _ ops i c hc
+  rw [ho] at ho'; cases ho'
+  exact hf hnf
+
+/-- … and after a local shutdown: whatever happens after `shutdown h` (any further history `ops2`,
+    any peer), the handle still denotes the same stream and a write through it returns BrokenPipe
+    and queues nothing. -/
+theorem write_fails_after_local_shutdown (o : Opts) (ops1 ops2 : List Mux.Op) (h i : Nat) (ob : Obj) (d : Bytes)
+    (hh : (runOps { opts := o } ops1).handles[h]? = some i) (ho : (runOps { opts := o } ops1).objs[i]? = some ob) :
+    let e2 := runOps (applyOp (runOps { opts := o } ops1) (.shutdown h)).1 ops2
+    e2.handles[h]? = some i ∧ (appWrite e2 h d).2 = .brokenPipe ∧ (appWrite e2 h d).1.outq = e2.outq := by
+  intro e2
+  obtain ⟨o1, ho1, hf1⟩ := appShutdown_sets _ h i ob hh ho
+  have t0 := Tr.appShutdown (runOps { opts := o } ops1) h
+  have t1 : Tr (appShutdown (runOps { opts := o } ops1) h).1 (applyOp (runOps { opts := o } ops1) (.shutdown h)).1 _ :=
+    Tr.settle (appShutdown (runOps { opts := o } ops1) h).1
+  have t := t1.trans (Tr.runOps (applyOp (runOps { opts := o } ops1) (.shutdown h)).1 ops2)
+  have hh2 : e2.handles[h]? = some i := t.hnd h i (t0.hnd h i hh)
+  have hlt : i < e2.objs.length := Nat.lt_of_lt_of_le (List.getElem?_eq_some_iff.mp ho1).1 t.len
+  obtain ⟨o2, ho2⟩ : ∃ o2, e2.objs[i]? = some o2 := ⟨e2.objs[i], List.getElem?_eq_getElem hlt⟩
+  have hf2 := (t.mono i o1 o2 ho1 ho2).2 hf1
+  have := (appWrite_glue e2 h i o2 d hh2 ho2).1 hf2
+  exact ⟨hh2, this.1, this.2.1⟩
+
+/-! Non-vacuity: concrete histories of one endpoint (default options: window 4). -/
+
+/-- The peer opens flow 7, the application accepts it; the peer sends an empty `Push`, three bytes,
+    and `Finish`. -/
+private def hA : List Mux.Op :=
+  [.deliver (.msg (.frame (.connect 7 4 80 [104]))), .accept,
+   .deliver (.msg (.frame (.push 7 []))), .deliver (.msg (.frame (.push 7 [1, 2, 3]))),
+   .deliver (.msg (.frame (.finish 7)))]
+-- the reader gets the data, then end-of-stream; the recorded cause is the peer's `Finish`
+example : (appRead (runOps { opts := {} } hA) 0 9).2 = .data [1, 2, 3] := by decide
+example : (appRead (runOps { opts := {} } (hA ++ [.read 0 9])) 0 9).2 = .eof := by decide
+example : endsOf { opts := {} } (hA ++ [.read 0 9]) = [(0, .peerFinish 7)] := by decide
+example : endCause (endsOf { opts := {} } (hA ++ [.read 0 9])) 0 = some (.peerFinish 7) := by decide
+-- `queued_data_comes_first` applies before that read (the sender is already gone, a byte is queued)
+example : ((runOps { opts := {} } hA).objs[0]?).map (fun x => (x.senderAlive, x.buf, x.rxq)) =
+    some (false, [], [[], [1, 2, 3]]) := by decide
+example : (runOps { opts := {} } hA).handles = [0] := by decide
+-- the event is recorded when the `Finish` is processed, for the object holding slot 7
+example : processFrameEnds (runOps { opts := {} } (hA.take 4)) (.finish 7) = [(0, .peerFinish 7)] := by decide
+example : processFrameEnds (runOps { opts := {} } (hA.take 4)) (.finish 8) = [] := by decide
+-- the empty `Push` alone: the window has room, and a read is pending, not end-of-stream
+example : overruns (runOps { opts := {} } (hA.take 2)) 7 = false := by decide
+example : (appRead (runOps { opts := {} } (hA.take 3)) 0 9).2 = .pending := by decide
+example : endsOf { opts := {} } (hA.take 4) = [] := by decide
+-- after the peer's `Finish` the write side is still usable (half-close)
+example : (appWrite (runOps { opts := {} } hA) 0 [5]).2 = .wrote 1 := by decide
+
+/-- The connection ends (the transport reports its end) while two bytes are queued. -/
+private def hB : List Mux.Op :=
+  [.deliver (.msg (.frame (.connect 7 4 80 [104]))), .accept,
+   .deliver (.msg (.frame (.push 7 [1, 2]))), .deliver .eof]
+example : (runOps { opts := {} } hB).dead = true := by decide
+example : endsOf { opts := {} } hB = [(0, .connEnded .ok)] := by decide
+example : (appRead (runOps { opts := {} } hB) 0 9).2 = .data [1, 2] := by decide
+example : (appRead (runOps { opts := {} } (hB ++ [.read 0 9])) 0 9).2 = .eof := by decide
+example : (appWrite (runOps { opts := {} } hB) 0 [5]).2 = .brokenPipe := by decide
+
+/-- Local shutdown, then the peer keeps sending. -/
+private def hC : List Mux.Op :=
+  [.deliver (.msg (.frame (.connect 7 4 80 [104]))), .accept, .shutdown 0,
+   .deliver (.msg (.frame (.push 7 [9])))]
+example : (appRead (runOps { opts := {} } hC) 0 9).2 = .data [9] := by decide
+example : (appWrite (runOps { opts := {} } hC) 0 [5]).2 = .brokenPipe := by decide
+example : endsOf { opts := {} } hC = [] := by decide
+example : readsRes (appShutdown (runOps { opts := {} } (hA.take 4)) 0).1 [(0, 2), (0, 9), (0, 9)] =
+    [.data [1, 2], .data [3], .pending] := by decide
+
+/-- The peer's `Reset`; an overrun (window 1, two frames); the application drops the stream. -/
+private def hD : List Mux.Op :=
+  [.deliver (.msg (.frame (.connect 7 4 80 [104]))), .accept, .deliver (.msg (.frame (.push 7 [1]))),
+   .deliver (.msg (.frame (.reset 7)))]
+example : endsOf { opts := {} } hD = [(0, .peerReset 7)] := by decide
+example : (appWrite (runOps { opts := {} } hD) 0 [5]).2 = .brokenPipe := by decide
+example : (appRead (runOps { opts := {} } hD) 0 9).2 = .data [1] := by decide
+example : (appRead (runOps { opts := {} } (hD ++ [.read 0 9])) 0 9).2 = .eof := by decide
+private def hE : List Mux.Op :=
+  [.deliver (.msg (.frame (.connect 7 4 80 [104]))), .accept, .deliver (.msg (.frame (.push 7 [1]))),
+   .deliver (.msg (.frame (.push 7 [])))]
+example : overruns (runOps { opts := { rwnd := 1 } } (hE.take 3)) 7 = true := by decide
+example : endsOf { opts := { rwnd := 1 } } hE = [(0, .overrun 7)] := by decide
+example : (appWrite (runOps { opts := { rwnd := 1 } } hE) 0 [5]).2 = .brokenPipe := by decide
+example : endsOf { opts := {} } [.deliver (.msg (.frame (.connect 7 4 80 [104]))), .accept, .dropStream 0] =
+    [(0, .dropped 7)] := by decide
+-- a `Finish` for another flow id, a `Datagram`, a `Bind`, an `Acknowledge` end nothing
+example : endsOf { opts := {} } (hA.take 2 ++ [.deliver (.msg (.frame (.finish 8))),
+    .deliver (.msg (.frame (.datagram 7 53 [104] [1]))), .deliver (.msg (.frame (.bind 7 .stream 80 [104]))),
+    .deliver (.msg (.frame (.acknowledge 7 1)))]) = [] := by decide
+
+end Endpoint
 
 end Penguin.C05
